@@ -23,10 +23,20 @@ type EdgeCut func(b *ssa.BasicBlock, succ int) bool
 
 // condBase strips negations and comparisons with boolean constants from a condition value and
 // returns the underlying value plus whether it was negated an odd number of times.
+// curBind: boolean phi nodes resolved on the path currently explored by a PathQ (set by the
+// search before edge cuts are evaluated; nil outside a search). `x := a || b; if !x` keeps the
+// information which operand decided x only on the path, not in the value.
+var curBind map[*ssa.Phi]ssa.Value
+
 func condBase(v ssa.Value) (ssa.Value, bool) {
 	neg := false
 	for {
 		switch x := v.(type) {
+		case *ssa.Phi:
+			if bv, ok := curBind[x]; ok && bv != ssa.Value(x) {
+				v = bv
+				continue
+			}
 		case *ssa.UnOp:
 			if x.Op == token.NOT {
 				neg = !neg
@@ -179,20 +189,93 @@ type bpos struct {
 	i int
 }
 
-// search runs a BFS from the given (block, instruction index) positions.
+// Bound resolves a boolean phi to the operand it received on the path currently explored.
+func Bound(v ssa.Value) ssa.Value {
+	for k := 0; k < 4; k++ {
+		p, ok := v.(*ssa.Phi)
+		if !ok {
+			return v
+		}
+		bv, ok := curBind[p]
+		if !ok || bv == v {
+			return v
+		}
+		v = bv
+	}
+	return v
+}
+
+// bindPhis extends the boolean-phi bindings along the edge pred -> blk.
+func bindPhis(bind map[*ssa.Phi]ssa.Value, pred, blk *ssa.BasicBlock) map[*ssa.Phi]ssa.Value {
+	pi := -1
+	for i, p := range blk.Preds {
+		if p == pred {
+			pi = i
+		}
+	}
+	var out map[*ssa.Phi]ssa.Value
+	for _, in := range blk.Instrs {
+		phi, ok := in.(*ssa.Phi)
+		if !ok {
+			break
+		}
+		b, isBasic := phi.Type().Underlying().(*types.Basic)
+		if !isBasic || b.Kind() != types.Bool || pi < 0 || pi >= len(phi.Edges) {
+			continue
+		}
+		val := phi.Edges[pi]
+		for k := 0; k < 4; k++ {
+			if p2, ok := val.(*ssa.Phi); ok {
+				if bv, ok := bind[p2]; ok {
+					val = bv
+					continue
+				}
+			}
+			break
+		}
+		if out == nil {
+			out = make(map[*ssa.Phi]ssa.Value, len(bind)+1)
+			for k, v := range bind {
+				out[k] = v
+			}
+		}
+		out[phi] = val
+	}
+	if out == nil {
+		return bind
+	}
+	return out
+}
+
+func bindKey(bind map[*ssa.Phi]ssa.Value) string {
+	if len(bind) == 0 {
+		return ""
+	}
+	var parts []string
+	for k, v := range bind {
+		parts = append(parts, k.Name()+"="+v.Name()+":"+v.String())
+	}
+	sort.Strings(parts)
+	return strings.Join(parts, ",")
+}
+
+// search runs a BFS from the given (block, instruction index) positions. Boolean phi nodes are bound
+// to the operand of the edge taken, so the state is (block, bindings).
 func (q *PathQ) search(starts []bpos, startInstr []ssa.Instruction) *Witness {
 	type node struct {
 		p      bpos
 		parent int
 		origin int
+		bind   map[*ssa.Phi]ssa.Value
 	}
 	var nodes []node
-	seenEntry := map[*ssa.BasicBlock]bool{}
+	seenEntry := map[string]bool{}
 	queue := []int{}
 	for k, s := range starts {
-		nodes = append(nodes, node{s, -1, k})
+		nodes = append(nodes, node{s, -1, k, nil})
 		queue = append(queue, len(nodes)-1)
 	}
+	defer func() { curBind = nil }()
 	for len(queue) > 0 {
 		ni := queue[0]
 		queue = queue[1:]
@@ -200,6 +283,7 @@ func (q *PathQ) search(starts []bpos, startInstr []ssa.Instruction) *Witness {
 		b := n.p.b
 		q.Visited++
 		dead := false
+		curBind = n.bind // callbacks may resolve boolean phis of this path through Bound()
 		for i := n.p.i; i < len(b.Instrs); i++ {
 			in := b.Instrs[i]
 			if q.Target != nil && q.Target(in) {
@@ -220,17 +304,24 @@ func (q *PathQ) search(starts []bpos, startInstr []ssa.Instruction) *Witness {
 		if dead {
 			continue
 		}
+		curBind = n.bind
 		for s, succ := range b.Succs {
 			if q.cut(b, s) {
 				continue
 			}
-			if seenEntry[succ] {
+			nb := bindPhis(n.bind, b, succ)
+			key := itoa(succ.Index) + "|" + bindKey(nb)
+			if seenEntry[key] {
 				continue
 			}
-			seenEntry[succ] = true
-			nodes = append(nodes, node{bpos{succ, 0}, ni, n.origin})
+			seenEntry[key] = true
+			nodes = append(nodes, node{bpos{succ, 0}, ni, n.origin, nb})
 			queue = append(queue, len(nodes)-1)
+			if len(nodes) > 200000 {
+				panic(hardFail{"path query state cap hit in " + funcKey(q.Fn)})
+			}
 		}
+		curBind = nil
 	}
 	return nil
 }
@@ -269,11 +360,17 @@ func (q *PathQ) ReachableInstrs() map[ssa.Instruction]bool {
 	if len(q.Fn.Blocks) == 0 {
 		return out
 	}
-	seen := map[*ssa.BasicBlock]bool{q.Fn.Blocks[0]: true}
-	work := []*ssa.BasicBlock{q.Fn.Blocks[0]}
+	type st struct {
+		b    *ssa.BasicBlock
+		bind map[*ssa.Phi]ssa.Value
+	}
+	seen := map[string]bool{itoa(q.Fn.Blocks[0].Index) + "|": true}
+	work := []st{{q.Fn.Blocks[0], nil}}
+	defer func() { curBind = nil }()
 	for len(work) > 0 {
-		b := work[0]
+		cur := work[0]
 		work = work[1:]
+		b := cur.b
 		dead := false
 		for _, in := range b.Instrs {
 			out[in] = true
@@ -285,13 +382,20 @@ func (q *PathQ) ReachableInstrs() map[ssa.Instruction]bool {
 		if dead {
 			continue
 		}
+		curBind = cur.bind
 		for s, succ := range b.Succs {
-			if q.cut(b, s) || seen[succ] {
+			if q.cut(b, s) {
 				continue
 			}
-			seen[succ] = true
-			work = append(work, succ)
+			nb := bindPhis(cur.bind, b, succ)
+			key := itoa(succ.Index) + "|" + bindKey(nb)
+			if seen[key] {
+				continue
+			}
+			seen[key] = true
+			work = append(work, st{succ, nb})
 		}
+		curBind = nil
 	}
 	return out
 }
